@@ -42,11 +42,7 @@ func (c *Config) CountField(name string, opts ...Option) (int, error) {
 	if v, ok := c.fields.get(name); ok {
 		n, err := v.Len(makeOptions(opts))
 		if err != nil {
-			if _, ok := err.(Error); !ok {
-				ctx := v.Context()
-				err = raisePathErr(err, v.meta(), "", ctx.path("."))
-			}
-			return -1, err
+			return -1, raiseAt(err, v)
 		}
 		return n, nil
 	}
